@@ -9,15 +9,18 @@ first section; the second section is about the table regenerated from the source
 (`Gen.Constraints`) and compares it with the copy pinned *here*, so that an edit of the table in
 the source that is not repeated in this file fails the build.
 
-Full statement of the property, kept visible:
+The full statement of the property is `validate_iff_specFull`:
 
     theorem validate_iff_specFull (t : Topo) : (validate genCfg t).1 = .ok () ↔ SpecFull genCfg t
 
-It does not hold for the code as it is (known findings): `Topology.nodes` hides Facility nodes
-from `validate`, and the forbidden node property `attached_components_info` has no getter.
-Proved instead: the two `_counterexample`s, `validate_iff_specFull_partial` (the equivalence
-whenever no hidden node type occurs and every node property is visible to the shallow sliver,
-for every table) and `valid_accepted` (no valid slice is ever rejected — one direction in full).
+It holds for the code as repaired (Facility nodes are validated too; components are looked up through the
+node handle): the facts it rests on are regenerated from the code on every run - every node type reaches
+`validate_constraints` (`gen_all_node_types_validated`), every property a row names can be read
+(`gen_node_properties_seen`, `gen_service_properties_readable`), all four presence tests go by truthiness
+(`gen_presence_by_truthiness`) and no constrained value class can be falsy (`gen_no_falsy_values`).  Each of
+these has a `_counterexample` showing that the equivalence fails without it (the former known findings are
+`skipped_type_counterexample` and `unseen_property_counterexample`).  `validate_iff_specFull_of` is the same
+equivalence for every table and every set of code facts, under exactly those hypotheses.
 -/
 namespace FimVerif.C10
 open FimVerif.Validate
@@ -99,53 +102,56 @@ theorem recordedSite_multisite (row : SvcRow) (s : Svc) (i j : NIface) (x y : St
 theorem siteCount_spec (xs : List String) : (dedup xs).Nodup ∧ ∀ y, y ∈ dedup xs ↔ y ∈ xs :=
   ⟨nodup_dedup xs, mem_dedup xs⟩
 
-/-- The equivalence with the full specification, under the two guards that name the known gaps
-(no node of a type hidden by `Topology.nodes`, and every node property readable from the shallow sliver)
-and the two facts about services that hold for the shipped table and classes (`gen_service_properties_readable`,
-`gen_no_falsy_values`): every property a service row names is readable, and no set value can be falsy. -/
-theorem validate_iff_specFull_partial (c : Cfg) (t : Topo)
-    (hvis : ∀ n ∈ t.nodes, n.ty ∉ c.nodesViewExcludes)
-    (hsee : ∀ n ∈ t.nodes, ∀ p ∈ n.props, p ∈ c.nodeGetters ∧ p ∈ c.nodeShallow)
-    (hread : ∀ kr ∈ c.svc, ∀ p ∈ kr.2.req ++ kr.2.forb, p ∈ c.svcGetters ∧ p ∈ c.svcShallow)
+/-- The hypotheses under which what the code checks is what the property asks for, as one decidable record:
+every node type is validated, every property a row names can be read, the four presence tests go by truthiness. -/
+structure Faithful (c : Cfg) : Prop where
+  allTypes : c.nodeTypesNotValidated = []
+  nodeRead : ∀ kr ∈ c.node, ∀ p ∈ kr.2.req ++ kr.2.forb, nodeReadable c p = true
+  svcRead : ∀ kr ∈ c.svc, ∀ p ∈ kr.2.req ++ kr.2.forb, p ∈ c.svcGetters ∧ p ∈ c.svcShallow
+  truthy : c.svcReqTruthy = true ∧ c.svcForbTruthy = true ∧ c.nodeReqTruthy = true ∧ c.nodeForbTruthy = true
+
+/-- every node meets its row in the code's terms iff it does in the property's terms -/
+theorem nodes_ok_iff_full (c : Cfg) (t : Topo) (hf : Faithful c)
+    (hhn : ∀ n ∈ t.nodes, ∀ q ∈ n.hollow, q ∉ c.nodeFalsyCapable) :
+    (∀ n ∈ t.nodes, n.ty ∉ c.nodeTypesNotValidated → ∃ row, c.node.lookup n.ty = some row ∧ NodeOK c row n) ↔
+    (∀ n ∈ t.nodes, ∃ row, c.node.lookup n.ty = some row ∧ NodeFull row n) := by
+  have hv : ∀ n : Node, n.ty ∉ c.nodeTypesNotValidated := by
+    intro n; rw [hf.allTypes]; exact List.not_mem_nil
+  constructor
+  · intro h n hn
+    obtain ⟨row, hl, hk⟩ := h n hn (hv n)
+    obtain ⟨kr, hkr, rfl⟩ := lookup_mem c.node n.ty row hl
+    exact ⟨kr.2, hl, (nodeOK_iff_full c kr.2 n (hf.nodeRead kr hkr) hf.truthy.2.2.1 hf.truthy.2.2.2 (hhn n hn)).mp hk⟩
+  · intro h n hn _
+    obtain ⟨row, hl, hk⟩ := h n hn
+    obtain ⟨kr, hkr, rfl⟩ := lookup_mem c.node n.ty row hl
+    exact ⟨kr.2, hl, (nodeOK_iff_full c kr.2 n (hf.nodeRead kr hkr) hf.truthy.2.2.1 hf.truthy.2.2.2 (hhn n hn)).mpr hk⟩
+
+/-- **For every table and every set of code facts**: if the code facts are faithful (`Faithful c`) and no hollow value in
+the slice belongs to a class that can be falsy, validation succeeds exactly when the slice meets the full specification. -/
+theorem validate_iff_specFull_of (c : Cfg) (t : Topo) (hf : Faithful c)
+    (hhn : ∀ n ∈ t.nodes, ∀ q ∈ n.hollow, q ∉ c.nodeFalsyCapable)
     (hh : ∀ s ∈ t.svcs, ∀ q ∈ s.hollow, q ∉ c.svcFalsyCapable) :
     (validate c t).1 = .ok () ↔ SpecFull c t := by
   rw [validate_iff_spec]
-  have hsv := svcs_ok_iff_full c t hread hh
-  have hs : ∀ n ∈ t.nodes, ∀ p, nodeSees c n p = true ↔ p ∈ n.props := by
-    intro n hn p
-    simp only [nodeSees, Bool.and_eq_true, List.contains_iff_mem]
-    exact ⟨fun h => h.2.2, fun h => ⟨(hsee n hn p h).1, (hsee n hn p h).2, h⟩⟩
-  constructor
-  · intro h
-    refine ⟨fun n hn => ?_, hsv.mp h.svcs, h.instances⟩
-    obtain ⟨row, hl, hk⟩ := h.nodes n hn (hvis n hn)
-    refine ⟨row, hl, fun p hp => (hs n hn p).mp (hk.required p hp), fun p hp hin => ?_⟩
-    have := hk.forbidden p hp
-    rw [(hs n hn p).mpr hin] at this; cases this
-  · intro h
-    refine ⟨fun n hn _ => ?_, hsv.mpr h.svcs, h.instances⟩
-    obtain ⟨row, hl, hk⟩ := h.nodes n hn
-    refine ⟨row, hl, fun p hp => (hs n hn p).mpr (hk.required p hp), fun p hp => ?_⟩
-    cases hv : nodeSees c n p with
-    | false => rfl
-    | true => exact absurd ((hs n hn p).mp hv) (hk.forbidden p hp)
+  have hsv := svcs_ok_iff_full c t hf.svcRead hf.truthy.1 hf.truthy.2.1 hh
+  have hnd := nodes_ok_iff_full c t hf hhn
+  exact ⟨fun h => ⟨hnd.mp h.nodes, hsv.mp h.svcs, h.instances⟩, fun h => ⟨hnd.mpr h.nodes, hsv.mpr h.svcs, h.instances⟩⟩
 
-/-- No valid slice is rejected: if every required node property the table names is readable,
-a slice that satisfies the full specification validates. -/
+/-- No valid slice is rejected: if every property the rows name is readable and the presence tests go by truthiness,
+a slice that satisfies the full specification validates - whatever node types the code skips. -/
 theorem valid_accepted_of (c : Cfg) (t : Topo)
-    (hreq : ∀ kr ∈ c.node, ∀ p ∈ kr.2.req, p ∈ c.nodeGetters ∧ p ∈ c.nodeShallow)
+    (hreq : ∀ kr ∈ c.node, ∀ p ∈ kr.2.req ++ kr.2.forb, nodeReadable c p = true)
     (hread : ∀ kr ∈ c.svc, ∀ p ∈ kr.2.req ++ kr.2.forb, p ∈ c.svcGetters ∧ p ∈ c.svcShallow)
+    (hm : c.svcReqTruthy = true ∧ c.svcForbTruthy = true ∧ c.nodeReqTruthy = true ∧ c.nodeForbTruthy = true)
+    (hhn : ∀ n ∈ t.nodes, ∀ q ∈ n.hollow, q ∉ c.nodeFalsyCapable)
     (hh : ∀ s ∈ t.svcs, ∀ q ∈ s.hollow, q ∉ c.svcFalsyCapable)
     (h : SpecFull c t) : (validate c t).1 = .ok () := by
   rw [validate_iff_spec]
-  refine ⟨fun n hn _ => ?_, (svcs_ok_iff_full c t hread hh).mpr h.svcs, h.instances⟩
+  refine ⟨fun n hn _ => ?_, (svcs_ok_iff_full c t hread hm.1 hm.2.1 hh).mpr h.svcs, h.instances⟩
   obtain ⟨row, hl, hk⟩ := h.nodes n hn
   obtain ⟨kr, hkr, rfl⟩ := lookup_mem c.node n.ty row hl
-  refine ⟨kr.2, hl, fun p hp => ?_, fun p hp => ?_⟩
-  · have := hreq kr hkr p hp
-    simp [nodeSees, this.1, this.2, hk.required p hp]
-  · have := hk.forbidden p hp
-    simp [nodeSees, this]
+  exact ⟨kr.2, hl, (nodeOK_iff_full c kr.2 n (hreq kr hkr) hm.2.2.1 hm.2.2.2 (hhn n hn)).mpr hk⟩
 
 /-- Validation never crashes on a well-formed table: if every property the service rows name is
 readable, no row limits instances (the shipped situation) and every element's type has a row, then
@@ -241,9 +247,35 @@ theorem gen_no_falsy_values : genCfg.svcFalsyCapable = [] := by decide
 theorem gen_hollow_harmless (t : Topo) : ∀ s ∈ t.svcs, ∀ q ∈ s.hollow, q ∉ genCfg.svcFalsyCapable := by
   intro s _ q _; rw [gen_no_falsy_values]; exact List.not_mem_nil
 
-/-- every *required* node property is readable -/
+/-- ... nor has any constrained node property -/
+theorem gen_no_falsy_node_values : genCfg.nodeFalsyCapable = [] := by decide
+
+theorem gen_node_hollow_harmless (t : Topo) : ∀ n ∈ t.nodes, ∀ q ∈ n.hollow, q ∉ genCfg.nodeFalsyCapable := by
+  intro n _ q _; rw [gen_no_falsy_node_values]; exact List.not_mem_nil
+
+/-- every *required* node property is readable from the shallow sliver -/
 theorem gen_node_required_readable :
     ∀ kr ∈ genCfg.node, ∀ p ∈ kr.2.req, p ∈ genCfg.nodeGetters ∧ p ∈ genCfg.nodeShallow := by decide
+
+/-- every property a node row names - required or forbidden - is seen by `Node.validate_constraints` when it is set (observed
+on the code by the translator's probes: through the shallow sliver, or through the node handle for components) -/
+theorem gen_node_properties_seen :
+    ∀ kr ∈ genCfg.node, ∀ p ∈ kr.2.req ++ kr.2.forb, nodeReadable genCfg p = true := by decide
+
+/-- `Topology.validate` hands nodes of every type to `validate_constraints` (observed: also the Facility nodes that the
+`nodes` view leaves out) -/
+theorem gen_all_node_types_validated : genCfg.nodeTypesNotValidated = [] := by decide
+
+/-- all four check loops decide "set" by the truthiness of the value: an empty string is not set (observed) -/
+theorem gen_presence_by_truthiness :
+    genCfg.svcReqTruthy = true ∧ genCfg.svcForbTruthy = true ∧ genCfg.nodeReqTruthy = true ∧ genCfg.nodeForbTruthy = true := by decide
+
+/-- the interface-count limits apply to experiment topologies only (observed) -/
+theorem gen_iface_count_class : Gen.Constraints.ifaceCountTopologyClass = "ExperimentTopology" := by decide
+
+/-- the code facts regenerated from the source are faithful -/
+theorem gen_faithful : Faithful genCfg :=
+  ⟨gen_all_node_types_validated, gen_node_properties_seen, gen_service_properties_readable, gen_presence_by_truthiness⟩
 
 /-- the interface types the rows name, and the guardrail pairs, are enum members -/
 theorem gen_names_are_members :
@@ -267,7 +299,7 @@ theorem gen_instances_void (svcs : List Svc) : InstOK genCfg svcs := by
 /-- For the shipped table the instance clause is void: `validate` succeeds exactly when every visible
 node and every service meets its row. -/
 theorem validate_iff_spec_gen (t : Topo) : (validate genCfg t).1 = .ok () ↔
-    (∀ n ∈ t.nodes, n.ty ∉ genCfg.nodesViewExcludes → ∃ row, genCfg.node.lookup n.ty = some row ∧ NodeOK genCfg row n) ∧
+    (∀ n ∈ t.nodes, n.ty ∉ genCfg.nodeTypesNotValidated → ∃ row, genCfg.node.lookup n.ty = some row ∧ NodeOK genCfg row n) ∧
     (∀ s ∈ t.svcs, ∃ row, genCfg.svc.lookup s.ty = some row ∧ SvcOK genCfg t.exp row s) := by
   rw [validate_iff_spec]
   exact ⟨fun h => ⟨h.nodes, h.svcs⟩, fun h => ⟨h.1, h.2, gen_instances_void _⟩⟩
@@ -283,40 +315,69 @@ theorem validate_rejects_with_topology (t : Topo) (e : Err)
     (fun kr hkr p hp => (gen_service_properties_readable kr hkr p hp).1) gen_no_instance_limit
     (fun n hn' => h1 n.ty (hn n hn')) (fun s hs' => h2 s.ty (hs s hs')) h
 
+/-- **The property, in full, for the shipped tables and the code as it is**: validation succeeds exactly when every node and
+every service of the slice meets its row - minimum and maximum number of interfaces, sites spanned, agreement of a declared
+site with the connected nodes, required and forbidden properties (set or not set, whatever the stored value's truthiness),
+permitted interface types, single-peer service ports. -/
+theorem validate_iff_specFull (t : Topo) : (validate genCfg t).1 = .ok () ↔ SpecFull genCfg t :=
+  validate_iff_specFull_of genCfg t gen_faithful (gen_node_hollow_harmless t) (gen_hollow_harmless t)
+
 /-- No valid slice is rejected (shipped table). -/
 theorem valid_accepted (t : Topo) (h : SpecFull genCfg t) : (validate genCfg t).1 = .ok () :=
-  valid_accepted_of genCfg t gen_node_required_readable gen_service_properties_readable (gen_hollow_harmless t) h
+  (validate_iff_specFull t).mpr h
 
 /-- **Services, shipped table and classes: nothing invalid is accepted.**  Whatever the nodes are, a slice that validates
 has every service meeting its row in the property's own terms (`SvcFull`: required properties set, forbidden properties
 not set - whatever the Python truthiness of the stored object). -/
 theorem services_full_of_valid (t : Topo) (h : (validate genCfg t).1 = .ok ()) :
     ∀ s ∈ t.svcs, ∃ row, genCfg.svc.lookup s.ty = some row ∧ SvcFull t.exp row s :=
-  (svcs_ok_iff_full genCfg t gen_service_properties_readable (gen_hollow_harmless t)).mp ((validate_iff_spec genCfg t).mp h).svcs
+  ((validate_iff_specFull t).mp h).svcs
 
-/-- Counterexample to the full statement (known finding): a Facility node with an image validates. -/
-theorem validate_iff_specFull_counterexample_facility :
-    ∃ t, (validate genCfg t).1 = .ok () ∧ ¬ SpecFull genCfg t := by
-  refine ⟨{ exp := true, nodes := [⟨"Facility", ["site", "image_ref", "image_type"]⟩], svcs := [] }, by decide, ?_⟩
-  intro h
-  obtain ⟨row, hl, hk⟩ := h.nodes ⟨"Facility", ["site", "image_ref", "image_type"]⟩ (by simp)
-  have : genCfg.node.lookup "Facility" =
-      some { req := [], forb := ["attached_components_info", "image_type", "image_ref", "management_ip"] } := by decide
-  rw [this] at hl
-  cases hl
-  exact hk.forbidden "image_ref" (by decide) (by decide)
+/-- **Nodes, shipped table and classes: nothing invalid is accepted** - every node of a slice that validates, of whatever
+type, meets its row in the property's own terms (`NodeFull`: required properties set, forbidden ones - components
+included - not set). -/
+theorem nodes_full_of_valid (t : Topo) (h : (validate genCfg t).1 = .ok ()) :
+    ∀ n ∈ t.nodes, ∃ row, genCfg.node.lookup n.ty = some row ∧ NodeFull row n :=
+  ((validate_iff_specFull t).mp h).nodes
 
-/-- Counterexample to the full statement (known finding): a Switch with a component validates. -/
-theorem validate_iff_specFull_counterexample_components :
-    ∃ t, (validate genCfg t).1 = .ok () ∧ ¬ SpecFull genCfg t := by
-  refine ⟨{ exp := true, nodes := [⟨"Switch", ["site", "attached_components_info"]⟩], svcs := [] }, by decide, ?_⟩
-  intro h
-  obtain ⟨row, hl, hk⟩ := h.nodes ⟨"Switch", ["site", "attached_components_info"]⟩ (by simp)
-  have : genCfg.node.lookup "Switch" =
-      some { req := [], forb := ["attached_components_info", "image_type", "image_ref"] } := by decide
-  rw [this] at hl
-  cases hl
-  exact hk.forbidden "attached_components_info" (by decide) (by decide)
+/-- Why `gen_all_node_types_validated` is an obligation (the former finding, repaired in the code): were `validate` to walk
+only the `nodes` view, which leaves Facility nodes out, a Facility node with an image would validate. -/
+theorem skipped_type_counterexample :
+    ∃ t, (validate { genCfg with nodeTypesNotValidated := ["Facility"] } t).1 = .ok () ∧
+      ¬ SpecFull { genCfg with nodeTypesNotValidated := ["Facility"] } t :=
+  ⟨{ exp := true, nodes := [{ ty := "Facility", props := ["site", "image_ref", "image_type"] }], svcs := [] }, by decide, by decide⟩
+
+/-- ... and with the code as it is that slice is refused -/
+example : (validate genCfg { exp := true, nodes := [{ ty := "Facility", props := ["site", "image_ref", "image_type"] }], svcs := [] }).1
+    = .error .topology := by decide
+
+/-- Why `gen_node_properties_seen` is an obligation (the former finding, repaired in the code): were components looked for on
+the shallow sliver only, which has no getter for them, a Switch with a component would validate. -/
+theorem unseen_property_counterexample :
+    ∃ t, (validate { genCfg with nodeViaHandle := [] } t).1 = .ok () ∧ ¬ SpecFull { genCfg with nodeViaHandle := [] } t :=
+  ⟨{ exp := true, nodes := [{ ty := "Switch", props := ["site", "attached_components_info"] }], svcs := [] }, by decide, by decide⟩
+
+example : (validate genCfg { exp := true, nodes := [{ ty := "Switch", props := ["site", "attached_components_info"] }], svcs := [] }).1
+    = .error .topology := by decide
+
+/-- Why `gen_presence_by_truthiness` is an obligation: were the node checks to test `is not None`, a VM whose site is the
+empty string would validate (and a Switch whose image_ref is the empty string would be refused). -/
+theorem blank_value_counterexample :
+    ∃ t, (validate { genCfg with nodeReqTruthy := false } t).1 = .ok () ∧ ¬ SpecFull { genCfg with nodeReqTruthy := false } t :=
+  ⟨{ exp := true, nodes := [{ ty := "VM", props := [], blank := ["site"] }], svcs := [] }, by decide, by decide⟩
+
+example : (validate genCfg { exp := true, nodes := [{ ty := "VM", props := [], blank := ["site"] }], svcs := [] }).1 = .error .topology := by decide
+example : (validate { genCfg with nodeForbTruthy := false }
+    { exp := true, nodes := [{ ty := "Switch", props := ["site"], blank := ["image_ref"] }], svcs := [] }).1 = .error .topology := by decide
+example : (validate genCfg { exp := true, nodes := [{ ty := "Switch", props := ["site"], blank := ["image_ref"] }], svcs := [] }).1 = .ok () := by decide
+
+/-- ... and the node analogue of `falsy_value_counterexample`: were the class of `management_ip` values to define `__bool__`,
+a Facility carrying a hollow address would validate although `management_ip` is forbidden. -/
+theorem falsy_node_value_counterexample :
+    ∃ t, (validate { genCfg with nodeFalsyCapable := ["management_ip"] } t).1 = .ok () ∧
+      ¬ SpecFull { genCfg with nodeFalsyCapable := ["management_ip"] } t :=
+  ⟨{ exp := true, nodes := [{ ty := "Facility", props := ["site", "management_ip"], hollow := ["management_ip"] }], svcs := [] },
+    by decide, by decide⟩
 
 /-- Why `gen_no_falsy_values` is an obligation and not a remark: were the class of `ero` values to define `__len__`
 (a graph-reference ERO then being falsy), an L2STS carrying such an ERO would validate although `ero` is forbidden. -/
@@ -324,12 +385,12 @@ theorem falsy_value_counterexample :
     ∃ t, (validate { genCfg with svcFalsyCapable := ["ero"] } t).1 = .ok () ∧
       ¬ SpecFull { genCfg with svcFalsyCapable := ["ero"] } t :=
   ⟨{ exp := true, nodes := [], svcs := [⟨"L2STS", none, ["ero"], none,
-      [.port "n0-p0" (some [⟨"DedicatedPort", some "RENC"⟩]), .port "n1-p0" (some [⟨"SharedPort", some "UKY"⟩])], ["ero"]⟩] },
+      [.port "n0-p0" (some [⟨"DedicatedPort", some "RENC"⟩]), .port "n1-p0" (some [⟨"SharedPort", some "UKY"⟩])], ["ero"], []⟩] },
     by decide, by decide⟩
 
 /-- ... and with the classes as they are the same slice is refused -/
 example : (validate genCfg { exp := true, nodes := [], svcs := [⟨"L2STS", none, ["ero"], none,
-      [.port "n0-p0" (some [⟨"DedicatedPort", some "RENC"⟩]), .port "n1-p0" (some [⟨"SharedPort", some "UKY"⟩])], ["ero"]⟩] }).1
+      [.port "n0-p0" (some [⟨"DedicatedPort", some "RENC"⟩]), .port "n1-p0" (some [⟨"SharedPort", some "UKY"⟩])], ["ero"], []⟩] }).1
     = .error .topology := by decide
 
 /-- The guardrails run on both ways of attaching an interface (constructor list, `connect_interface`). -/
@@ -353,9 +414,9 @@ theorem guardrail_sound :
 
 /-! ### non-vacuity -/
 
-def exSts : Topo := { exp := true, nodes := [⟨"VM", ["site"]⟩, ⟨"VM", ["site"]⟩], svcs := [⟨"L2STS", none, [], none, [.port "n0-p0" (some [⟨"DedicatedPort", some "RENC"⟩]), .port "n1-p0" (some [⟨"SharedPort", some "UKY"⟩])], []⟩] }
-def exBridge (site : Option String) : Topo := { exp := true, nodes := [], svcs := [⟨"L2Bridge", site, [], none, [.port "n0-p0" (some [⟨"SharedPort", some "RENC"⟩])], []⟩] }
-def exThree : Topo := { exp := true, nodes := [], svcs := [⟨"L2STS", none, [], none, [.port "n1-x-p0" (some [⟨"SharedPort", some "A"⟩]), .port "n1-x-p0" (some [⟨"SharedPort", some "B"⟩]), .port "n1-x-p0" (some [⟨"SharedPort", some "C"⟩])], []⟩] }
+def exSts : Topo := { exp := true, nodes := [{ ty := "VM", props := ["site"] }, { ty := "VM", props := ["site"] }], svcs := [⟨"L2STS", none, [], none, [.port "n0-p0" (some [⟨"DedicatedPort", some "RENC"⟩]), .port "n1-p0" (some [⟨"SharedPort", some "UKY"⟩])], [], []⟩] }
+def exBridge (site : Option String) : Topo := { exp := true, nodes := [], svcs := [⟨"L2Bridge", site, [], none, [.port "n0-p0" (some [⟨"SharedPort", some "RENC"⟩])], [], []⟩] }
+def exThree : Topo := { exp := true, nodes := [], svcs := [⟨"L2STS", none, [], none, [.port "n1-x-p0" (some [⟨"SharedPort", some "A"⟩]), .port "n1-x-p0" (some [⟨"SharedPort", some "B"⟩]), .port "n1-x-p0" (some [⟨"SharedPort", some "C"⟩])], [], []⟩] }
 /-- a two-site L2STS between two NIC ports validates … -/
 example : (validate genCfg exSts).1 = .ok () := by decide
 /-- … an L2Bridge gets its site recorded … -/
@@ -365,14 +426,15 @@ example : (validate genCfg (exBridge (some "UKY"))).1 = .error .topology := by d
 example : (validate genCfg exThree).1 = .error .topology := by decide
 /-- three interfaces, two of them with the same name (`n1` + `nic-aa-p1`, `n1-nic` + `aa-p1`): the name-keyed view has two
 entries, but an L2PTP with them is over its limit of 2 and a two-interface L2STS with like-named ports is valid -/
-def exPtpNames : Topo := { exp := true, nodes := [], svcs := [⟨"L2PTP", none, [], none, [.port "n1-nic-aa-p1" (some [⟨"DedicatedPort", some "RENC"⟩]), .port "n1-nic-aa-p1" (some [⟨"DedicatedPort", some "UKY"⟩]), .port "n3-nic1-p1" (some [⟨"DedicatedPort", some "UKY"⟩])], []⟩] }
-def exStsNames : Topo := { exp := true, nodes := [], svcs := [⟨"L2STS", none, [], none, [.port "n1-nic-aa-p1" (some [⟨"DedicatedPort", some "RENC"⟩]), .port "n1-nic-aa-p1" (some [⟨"DedicatedPort", some "UKY"⟩])], []⟩] }
+def exPtpNames : Topo := { exp := true, nodes := [], svcs := [⟨"L2PTP", none, [], none, [.port "n1-nic-aa-p1" (some [⟨"DedicatedPort", some "RENC"⟩]), .port "n1-nic-aa-p1" (some [⟨"DedicatedPort", some "UKY"⟩]), .port "n3-nic1-p1" (some [⟨"DedicatedPort", some "UKY"⟩])], [], []⟩] }
+def exStsNames : Topo := { exp := true, nodes := [], svcs := [⟨"L2STS", none, [], none, [.port "n1-nic-aa-p1" (some [⟨"DedicatedPort", some "RENC"⟩]), .port "n1-nic-aa-p1" (some [⟨"DedicatedPort", some "UKY"⟩])], [], []⟩] }
 example : (exPtpNames.svcs.map (·.interfaceNames.length)) = [2] := by decide
 example : (validate genCfg exPtpNames).1 = .error .topology := by decide
 example : (validate genCfg exStsNames).1 = .ok () := by decide
-/-- the guards of `validate_iff_specFull_partial` are satisfiable -/
-example : (∀ n ∈ [(⟨"VM", ["site", "image_ref"]⟩ : Node)], n.ty ∉ genCfg.nodesViewExcludes) ∧
-    (∀ n ∈ [(⟨"VM", ["site", "image_ref"]⟩ : Node)], ∀ p ∈ n.props, p ∈ genCfg.nodeGetters ∧ p ∈ genCfg.nodeShallow) := by decide
+/-- `Faithful` is satisfiable (`gen_faithful`), and a slice with hollow and blank values meets the hypotheses of
+`validate_iff_specFull_of` -/
+example : (∀ n ∈ [({ ty := "VM", props := ["site", "image_ref"], hollow := ["image_ref"], blank := ["image_type"] } : Node)],
+    ∀ q ∈ n.hollow, q ∉ genCfg.nodeFalsyCapable) := by decide
 example : connect genCfg false "L2PTP" "SharedPort" true false = .error .topology := by decide
 example : connect genCfg false "L2PTP" "DedicatedPort" true false = .ok () := by decide
 
